@@ -309,7 +309,7 @@ pub fn well_formed(rng: &mut Rng) -> Spec {
         1 => Some(vec![]),
         _ => {
             let mut v = vec![];
-            let n = 1 + rng.below(12);
+            let n = if rng.chance(1, 4) { 1 } else { 1 + rng.below(12) };
             let loads: Vec<&Seg> = all.iter().filter(|s| s.ptype == PT_LOAD).collect();
             let mut addrs: Vec<u64> = vec![];
             for k in 0..n {
@@ -334,7 +334,7 @@ pub fn well_formed(rng: &mut Rng) -> Spec {
                     _ => format!("sym_{:x}_{}", value & 0xfff, k),
                 };
                 let shndx: u16 = if rng.chance(1, 6) { 0 } else { *rng.pick(&[1u16, 2, 0xfff1]) };
-                v.push(Sym { value, name, shndx, info: *rng.pick(&[0x12u8, 0x11, 0x10, 0x03, 0x00]) });
+                v.push(Sym { value, name, shndx, info: *rng.pick(&[0x12u8, 0x11, 0x10, 0x03, 0x00, 0x16, 0x06, 0x14, 0x1a, 0x0f]) });
             }
             Some(v)
         }
@@ -342,8 +342,14 @@ pub fn well_formed(rng: &mut Rng) -> Spec {
     let entry = {
         let loads: Vec<&Seg> = all.iter().filter(|s| s.ptype == PT_LOAD).collect();
         let s = rng.pick(&loads);
-        match rng.below(5) {
+        match rng.below(6) {
             0 => rng.val(),
+            // the entry point usually is a symbol (`_start`, `main`): sometimes the only one, sometimes one of several there
+            1 | 2 if syms.as_ref().map_or(false, |v| !v.is_empty()) => {
+                let v = syms.as_ref().unwrap();
+                let defined: Vec<u64> = v.iter().filter(|y| y.shndx != 0).map(|y| y.value).collect();
+                if defined.is_empty() { s.vaddr + rng.below(s.memsz) } else { *rng.pick(&defined) }
+            }
             _ => s.vaddr + rng.below(s.memsz),
         }
     };
